@@ -208,6 +208,20 @@ PANIC_PATTERNS = [
 ]
 
 
+def panic_kinds(st):
+    """the kinds of potential panic a (stripped) source line contains"""
+    code = re.sub(r'"(?:[^"\\]|\\.)*"', '""', st)       # string literals do not count
+    kinds = []
+    for k, pat in PANIC_PATTERNS:
+        if re.search(pat, code):
+            if k == "index" and re.search(r"#\[|vec!\[|\[\s*\]|: \[|&\[|\.\.", code):
+                continue
+            if k == "sub" and ("i64" in code or "->" in code and " - " not in code):
+                continue
+            kinds.append(k)
+    return kinds
+
+
 def ex_panic_sites(repo):
     """inventory of potential panic sites in non-test code: (file, fn, kinds, normalised source line)"""
     import glob
@@ -225,15 +239,7 @@ def ex_panic_sites(repo):
             st = l.strip()
             if st.startswith("//") or "vlsp_verif" in l or "crate::verif::" in l:
                 continue
-            code = re.sub(r'"(?:[^"\\]|\\.)*"', '""', st)       # string literals do not count
-            kinds = []
-            for k, pat in PANIC_PATTERNS:
-                if re.search(pat, code):
-                    if k == "index" and re.search(r"#\[|vec!\[|\[\s*\]|: \[|&\[|\.\.", code):
-                        continue
-                    if k == "sub" and ("i64" in code or "->" in code and " - " not in code):
-                        continue
-                    kinds.append(k)
+            kinds = panic_kinds(st)
             if kinds:
                 sites.append([rel, cur, "+".join(kinds), re.sub(r"\s+", " ", st)])
     return {"panicSites": sites}
